@@ -4446,6 +4446,9 @@ def regional_maximum(image, mask=None, structure=None, ties_are_ok=False):
             result[positions[:, 0], positions[:, 1]] = True
         return result
     result = np.ones(image.shape, bool)
+    if mask is not None:
+        # a masked-out pixel is never a maximum itself
+        result[~np.asarray(mask, bool)] = False
     if structure is None:
         structure = scind.generate_binary_structure(image.ndim, image.ndim)
     #
